@@ -26,6 +26,7 @@ import Fir.Proofs.SimdU8x2Lemmas
 import Fir.Proofs.SimdU16x1Lemmas
 import Fir.Proofs.SimdU16x4Lemmas
 import Fir.Proofs.SimdU16x2Lemmas
+import Fir.Proofs.SimdU16x3Lemmas
 
 namespace Fir.C02
 open Fir
@@ -534,6 +535,44 @@ theorem u16x2_sse4_four_rows_masks :
 theorem u16x2_sse4_source_as_modelled :
     Fir.Gen.u16x2_sse4_one_row_skeleton = "normalizer.precision() ; _mm_set1_epi64x(half_error) ; chunks_exact(4) ; remainder() ; _mm_set1_epi64x(k[0] as i64) ; _mm_set1_epi64x(k[1] as i64) ; _mm_set1_epi64x(k[2] as i64) ; _mm_set1_epi64x(k[3] as i64) ; simd_utils::loadu_si128(src_row, x) ; _mm_shuffle_epi8(source, p0_shuffle) ; _mm_add_epi64(ll_sum, _mm_mul_epi32(p_i64x2, coeff0_i64x2)) ; _mm_shuffle_epi8(source, p1_shuffle) ; _mm_add_epi64(ll_sum, _mm_mul_epi32(p_i64x2, coeff1_i64x2)) ; _mm_shuffle_epi8(source, p2_shuffle) ; _mm_add_epi64(ll_sum, _mm_mul_epi32(p_i64x2, coeff2_i64x2)) ; _mm_shuffle_epi8(source, p3_shuffle) ; _mm_add_epi64(ll_sum, _mm_mul_epi32(p_i64x2, coeff3_i64x2)) ; chunks_exact(2) ; remainder() ; _mm_set1_epi64x(k[0] as i64) ; _mm_set1_epi64x(k[1] as i64) ; simd_utils::loadl_epi64(src_row, x) ; _mm_shuffle_epi8(source, p0_shuffle) ; _mm_add_epi64(ll_sum, _mm_mul_epi32(p_i64x2, coeff0_i64x2)) ; _mm_shuffle_epi8(source, p1_shuffle) ; _mm_add_epi64(ll_sum, _mm_mul_epi32(p_i64x2, coeff1_i64x2)) ; first() ; _mm_set1_epi64x(k as i64) ; simd_utils::loadl_epi32(src_row, x) ; _mm_shuffle_epi8(source, p0_shuffle) ; _mm_add_epi64(ll_sum, _mm_mul_epi32(p_i64x2, coeff0_i64x2)) ; _mm_storeu_si128(ll_buf.as_mut_ptr() as *mut __m128i, ll_sum) ; normalizer.clip(ll_buf[0]) ; normalizer.clip(ll_buf[1])" ∧
     Fir.Gen.u16x2_sse4_four_rows_skeleton = "normalizer.precision() ; _mm_set1_epi64x(half_error) ; chunks_exact(4) ; remainder() ; _mm_set1_epi64x(k[0] as i64) ; _mm_set1_epi64x(k[1] as i64) ; _mm_set1_epi64x(k[2] as i64) ; _mm_set1_epi64x(k[3] as i64) ; simd_utils::loadu_si128(src_rows[i], x) ; _mm_shuffle_epi8(source, p0_shuffle) ; _mm_add_epi64(sum, _mm_mul_epi32(p_i64x2, coeff0_i64x2)) ; _mm_shuffle_epi8(source, p1_shuffle) ; _mm_add_epi64(sum, _mm_mul_epi32(p_i64x2, coeff1_i64x2)) ; _mm_shuffle_epi8(source, p2_shuffle) ; _mm_add_epi64(sum, _mm_mul_epi32(p_i64x2, coeff2_i64x2)) ; _mm_shuffle_epi8(source, p3_shuffle) ; _mm_add_epi64(sum, _mm_mul_epi32(p_i64x2, coeff3_i64x2)) ; chunks_exact(2) ; remainder() ; _mm_set1_epi64x(k[0] as i64) ; _mm_set1_epi64x(k[1] as i64) ; simd_utils::loadl_epi64(src_rows[i], x) ; _mm_shuffle_epi8(source, p0_shuffle) ; _mm_add_epi64(sum, _mm_mul_epi32(p_i64x2, coeff0_i64x2)) ; _mm_shuffle_epi8(source, p1_shuffle) ; _mm_add_epi64(sum, _mm_mul_epi32(p_i64x2, coeff1_i64x2)) ; first() ; _mm_set1_epi64x(k as i64) ; simd_utils::loadl_epi32(src_rows[i], x) ; _mm_shuffle_epi8(source, p0_shuffle) ; _mm_add_epi64(ll_sum[i], _mm_mul_epi32(p_i64x2, coeff0_i64x2)) ; _mm_storeu_si128(ll_buf.as_mut_ptr() as *mut __m128i, ll_sum[i]) ; normalizer.clip(ll_buf[0]) ; normalizer.clip(ll_buf[1])" := by
+  constructor <;> rfl
+
+/-! ### RGB16: the SSE4.1 horizontal kernels of U16x3 (src/convolution/u16x3/sse4.rs)
+
+    Accumulators `rg = [R, G]` and `bb` (B of even / odd steps, summed at the end).  A 128-bit load covers two pixels and a third
+    of the next, so the two-coefficient loop runs only when the window ends before the last pixel (`width - end_x >= 1`);
+    otherwise, and for a last odd coefficient, pixels are read component by component.  The one-row kernel starts the lanes at
+    `1 << (precision - 1)` / `1 << (precision - 2)`, the four-row kernel at zero (adding `half_error` at the end).  Both equal
+    the portable kernel for every row width; the 128-bit loads stay inside the row (C03). -/
+
+theorem u16x3_sse4_one_row_eq_portable (p w : Nat) (hp2 : 2 ≤ p) (row : List Int) (start : Nat) (ks : List Int) :
+    Fir.SimdU16x3.pixel p w row start ks
+      = [clip16 (2 ^ (p - 1) + Fir.SimdU16x3.dot3 row 0 ks start) p, clip16 (2 ^ (p - 1) + Fir.SimdU16x3.dot3 row 1 ks start) p,
+         clip16 (2 ^ (p - 1) + Fir.SimdU16x3.dot3 row 2 ks start) p] :=
+  Fir.Proofs.U16x3.pixel_eq_portable p w hp2 row start ks
+
+theorem u16x3_sse4_four_rows_eq_portable (p w : Nat) (row : List Int) (start : Nat) (ks : List Int) :
+    Fir.SimdU16x3.pixelR p w row start ks
+      = [clip16 (2 ^ (p - 1) + Fir.SimdU16x3.dot3 row 0 ks start) p, clip16 (2 ^ (p - 1) + Fir.SimdU16x3.dot3 row 1 ks start) p,
+         clip16 (2 ^ (p - 1) + Fir.SimdU16x3.dot3 row 2 ks start) p] :=
+  Fir.Proofs.U16x3.pixelR_eq_portable p w row start ks
+
+/-- every 128-bit load of the pair loop (16 bytes from pixel `x`, 6 bytes per pixel) lies inside the row of `w` pixels -/
+theorem u16x3_sse4_loads_in_row (w start : Nat) (ks : List Int) :
+    ∀ x ∈ Fir.SimdU16x3.loads w start ks, 6 * x + 16 ≤ 6 * w :=
+  Fir.Proofs.U16x3.loads_in_row w start ks
+
+/-- the load list is not empty in general: a window of 5 coefficients at pixel 2 of a row of 9 pixels loads at pixels 2 and 4 -/
+example : Fir.SimdU16x3.loads 9 2 [1, 2, 3, 4, 5] = [2, 4] := by decide
+
+theorem u16x3_sse4_four_rows_masks :
+    Fir.Gen.u16x3_sse4_four_rg0 = Fir.Gen.u16x3_sse4_rg0 ∧ Fir.Gen.u16x3_sse4_four_rg1 = Fir.Gen.u16x3_sse4_rg1 ∧
+    Fir.Gen.u16x3_sse4_four_bb = Fir.Gen.u16x3_sse4_bb := by
+  refine ⟨?_, ?_, ?_⟩ <;> decide
+
+theorem u16x3_sse4_source_as_modelled :
+    Fir.Gen.u16x3_sse4_one_row_skeleton = "normalizer.precision() ; _mm_set1_epi64x(1 << (precision - 1)) ; _mm_set1_epi64x(1 << (precision - 2)) ; chunks_exact(2) ; remainder() ; _mm_set1_epi64x(k[0] as i64) ; _mm_set1_epi64x(k[1] as i64) ; _mm_set_epi64x(k[1] as i64, k[0] as i64) ; simd_utils::loadu_si128(src_row, x) ; _mm_shuffle_epi8(source, rg0_shuffle) ; _mm_add_epi64(rg_sum, _mm_mul_epi32(rg0_i64x2, coeff0_i64x2)) ; _mm_shuffle_epi8(source, rg1_shuffle) ; _mm_add_epi64(rg_sum, _mm_mul_epi32(rg1_i64x2, coeff1_i64x2)) ; _mm_shuffle_epi8(source, bb_shuffle) ; _mm_add_epi64(bb_sum, _mm_mul_epi32(bb_i64x2, coeff_i64x2)) ; _mm_set1_epi64x(k as i64) ; get_unchecked(x) ; _mm_set_epi64x(pixel.0[1] as i64, pixel.0[0] as i64) ; _mm_add_epi64(rg_sum, _mm_mul_epi32(rg_i64x2, coeff_i64x2)) ; _mm_set_epi64x(0, pixel.0[2] as i64) ; _mm_add_epi64(bb_sum, _mm_mul_epi32(bb_i64x2, coeff_i64x2)) ; _mm_storeu_si128(rg_buf.as_mut_ptr() as *mut __m128i, rg_sum) ; _mm_storeu_si128(bb_buf.as_mut_ptr() as *mut __m128i, bb_sum) ; normalizer.clip(rg_buf[0]) ; normalizer.clip(rg_buf[1]) ; normalizer.clip(bb_buf[0] + bb_buf[1]) | let width = src_row.len() ; let end_x = x + coeffs.len() ; if width - end_x >= 1 ; for &k in coeffs" ∧
+    Fir.Gen.u16x3_sse4_four_rows_skeleton = "normalizer.precision() ; _mm_set1_epi8(0) ; _mm_set1_epi8(0) ; chunks_exact(2) ; remainder() ; _mm_set1_epi64x(k[0] as i64) ; _mm_set1_epi64x(k[1] as i64) ; _mm_set_epi64x(k[1] as i64, k[0] as i64) ; simd_utils::loadu_si128(src_rows[i], x) ; _mm_shuffle_epi8(source, rg0_shuffle) ; _mm_add_epi64(rg_sum[i], _mm_mul_epi32(rg0_i64x2, coeff0_i64x2)) ; _mm_shuffle_epi8(source, rg1_shuffle) ; _mm_add_epi64(rg_sum[i], _mm_mul_epi32(rg1_i64x2, coeff1_i64x2)) ; _mm_shuffle_epi8(source, bb_shuffle) ; _mm_add_epi64(bb_sum[i], _mm_mul_epi32(bb_i64x2, coeff_i64x2)) ; _mm_set1_epi64x(k as i64) ; get_unchecked(x) ; _mm_set_epi64x(pixel.0[1] as i64, pixel.0[0] as i64) ; _mm_add_epi64(rg_sum[i], _mm_mul_epi32(rg_i64x2, coeff_i64x2)) ; _mm_set_epi64x(0, pixel.0[2] as i64) ; _mm_add_epi64(bb_sum[i], _mm_mul_epi32(bb_i64x2, coeff_i64x2)) ; _mm_storeu_si128(rg_buf.as_mut_ptr() as *mut __m128i, rg_sum[i]) ; _mm_storeu_si128(bb_buf.as_mut_ptr() as *mut __m128i, bb_sum[i]) ; normalizer.clip(rg_buf[0] + half_error) ; normalizer.clip(rg_buf[1] + half_error) ; normalizer.clip(bb_buf[0] + bb_buf[1] + half_error) | let width = src_rows[0].len() ; let end_x = x + coeffs.len() ; if width - end_x >= 1 ; for &k in coeffs" := by
   constructor <;> rfl
 
 end Fir.C02
